@@ -35,7 +35,7 @@ WITNESSES = {"sel": ("WitnessSelSibling", "WitnessSelRoot"),
 BYTE = {"a": b"a", "LF": b"\n", "CR": b"\r"}
 NAME = {97: "a", 10: "LF", 13: "CR"}
 _UNIVERSE = None
-_CONSTS = None
+_TOTAL = {}
 
 
 def _pstr(segs):
@@ -153,6 +153,17 @@ def _show(part, c):
     return "t=%s%d.%06d s, offset %d min" % ("-" if c["neg"] else "", c["hi"] * 10 ** 6 + c["lo"], c["us"], c["off"])
 
 
+def _compact(part, row):
+    o = row["impl"]
+    if part == "sel":
+        return {k: [_pstr(p) for p in o[k]] for k in ("sel", "any", "each")}
+    if part == "path":
+        return {"st": o["st"], "split": ["".join(x) for x in o["split"]], "joined": "".join(o["joined"])}
+    if part == "text":
+        return {k: [b"".join(BYTE.get(x, b"?") for x in l) for l in o[k]] for k in ("lines", "cl", "cl1")}
+    return {"formatted": row.get("text"), "unpacked": o, "error": row.get("error")}
+
+
 def _replay(ctx, items):
     part = items[0][0]
     rows = []
@@ -178,14 +189,15 @@ def _replay(ctx, items):
         if drift and not failed:
             ctx.drift("%s: real result %r differs from the TLA+ definition" % (_show(part, c), row["impl"]), row)
     r = rows[len(rows) // 2]
-    ctx.sample({"part": part, "case": _show(part, r["c"]), "real": r["impl"], "text": r.get("text")}, limit=1)
+    ctx.sample({"part": part, "cases_in_part": _TOTAL.get(part), "case": _show(part, r["c"]),
+                "real": _compact(part, r)}, limit=1)
 
 
 def _generate(ctx, part):
     consts = dict(_sel_consts(ctx.tier), Part='"%s"' % part, **BOUNDS[ctx.tier])
     cases, _ = table_common.generate(ctx, "OsUtilsGen", consts, witnesses=WITNESSES[part], label="OsUtilsGen " + part,
                                      workers=2 if ctx.quick else 8)
-    ctx.cov.setdefault("cases_per_part", {})[part] = len(cases)
+    _TOTAL[part] = len(cases)
     return [(part, k) for k in cases]
 
 
@@ -193,7 +205,6 @@ def _whole_part(ctx, parts):
     """quick tier: one worker process per part does generation, replay and judging (the parts are small)."""
     for part in parts:
         _replay(ctx, _generate(ctx, part))
-        ctx.sample({"cases in part " + part: ctx.cov["cases_per_part"][part]}, limit=8)
 
 
 def run(ctx):
